@@ -287,6 +287,42 @@ func runC13(c *Ctx) {
 				}
 			}
 		}
+		// --- S2c: Shutdown with a context that has already expired: it may report the context's error, but the server is
+		//          shut down all the same — the serve call returns, no handler runs afterwards
+		for _, kind := range []string{"udp", "tcp"} {
+			p := &srvProbe{}
+			ls, err := startServer(kind, p)
+			if err != nil {
+				continue
+			}
+			query(ls.net, ls.addr, 7, time.Second)
+			ctx, cancel := context.WithCancel(context.Background())
+			cancel()
+			ch := make(chan error, 1)
+			go func() { ch <- ls.srv.ShutdownContext(ctx) }()
+			var serr error
+			returned := true
+			select {
+			case serr = <-ch:
+			case <-time.After(3 * time.Second):
+				returned = false
+			}
+			atomic.StoreInt32(&p.shutdownDone, 1)
+			c.Pred("lifecycle", "expired-context-shutdown-returns", kind, returned && (serr == nil || serr == context.Canceled), fmt.Sprint(returned, serr), "nil or the context's error", true)
+			served := false
+			select {
+			case e := <-ls.serveCh:
+				served = e == nil
+			case <-time.After(3 * time.Second):
+			}
+			c.Pred("lifecycle", "expired-context-serve-returns", kind, served, "serve call still blocked (or returned an error)", "serve call returns nil", true)
+			before := atomic.LoadInt64(&p.enter)
+			query(ls.net, ls.addr, 8, 150*time.Millisecond)
+			c.Pred("lifecycle", "expired-context-no-handler-after", kind, atomic.LoadInt64(&p.enter) == before, fmt.Sprint(atomic.LoadInt64(&p.enter)-before, " handlers"), "0", true)
+			if !served {
+				shutdownWithin(ls.srv, 0, 3*time.Second)
+			}
+		}
 		// --- S3: shutdown of a server that was never started
 		{
 			srv := &dns.Server{Addr: "127.0.0.1:0", Net: "udp"}
